@@ -44,7 +44,7 @@ def _c15_deep(bases, modes, hes=None):
 
 PROPS["C15"] = dict(
   jobs=[
-    dict(name="c15-order", harness="C15_order.cpp", entries=["harness_c15_order"], units=_C15_UNITS, unwind=26, checks="none", object_bits=13,
+    dict(name="c15-order", harness="C15_order.cpp", entries=["harness_c15_order"], units=_C15_UNITS, unwind=40, checks="none", object_bits=13,
          shards={"quick": _c15_order(range(5), [0]) + _c15_order([_T_FACE], [1, 4, 5, 6]),
                  "thorough": _c15_order(range(5), range(8))},
          timeout=300, mem_gb=4,
@@ -52,7 +52,7 @@ PROPS["C15"] = dict(
                 "EVERY live cell and EVERY halfface of the mesh is queried (enumerated, constant); free symbolic: the vertex argument vh (any vertex index of the mesh) of "
                 "get_cell_vertices(ch,vh) / vertex_opposite_halfface / get_halfface_vertices(hfh,vh) and the halfedge argument heh (any halfedge index) of "
                 "get_cell_vertices(hfh,heh) / get_halfface_vertices(hfh,heh); tv_iter / tet_vertices compared element-wise with the brute-force tuple"),
-    dict(name="c15-labels", harness="C15_labels.cpp", entries=["harness_c15_labels"], units=_C15_UNITS, unwind=26, checks="none", object_bits=13,
+    dict(name="c15-labels", harness="C15_labels.cpp", entries=["harness_c15_labels"], units=_C15_UNITS, unwind=40, checks="none", object_bits=13,
          shards={"quick": _c15_labels([(_T_ONE, 0)], range(6)) + _c15_labels([(_T_FACE, 1)], [0, 4]) + _c15_labels([(_T_RING, 2)], [2]),
                  "thorough": _c15_labels(_c15_all_cells(), range(6))},
          timeout=300, mem_gb=4,
